@@ -1,0 +1,47 @@
+// Copyright © 2022-2026 Obol Labs Inc. Licensed under the terms of a Business Source License 1.1
+
+//go:build verif
+
+// Verification contracts (comments only; read by /verif/govc, never compiled into charon).
+package deposit
+
+//@ pure eth2util.ChecksumAddress eth2util.NetworkToForkVersionBytes hex.DecodeString strings.TrimPrefix eth2p0.DepositMessage.HashTreeRoot eth2p0.ForkData.HashTreeRoot eth2p0.SigningData.HashTreeRoot
+
+// The deposit message carries exactly the given key and amount, and the withdrawal credentials derived from the
+// given address and mode; amounts outside [1 ETH, max for the mode] are rejected.
+//@ func NewMessage
+//@ props C12
+//@ ensures r1 == nil ==> r0.PublicKey == pubkey && r0.Amount == amount && amount >= MinDepositAmount && amount <= MaxDepositAmount(compounding)
+//@ ensures r1 == nil ==> res(1, withdrawalCredsFromAddr(withdrawalAddr, compounding)) == nil && len(r0.WithdrawalCredentials) == 32 && forall(i, 0, 32, r0.WithdrawalCredentials[i] == res(0, withdrawalCredsFromAddr(withdrawalAddr, compounding))[i])
+//@ canary r1 != nil
+
+//@ func MaxDepositAmount
+//@ props C12
+//@ pure
+//@ ensures result == ite(compounding, MaxCompoundingDepositAmount, MaxStandardDepositAmount)
+
+// credentials = the one-byte prefix of the mode (package variables eth1AddressWithdrawalPrefix = 0x01 / eip7251AddressWithdrawalPrefix
+// = 0x02; their contents are package state, taken as given), eleven zero bytes, the 20 address bytes
+//@ func withdrawalCredsFromAddr
+//@ props C12
+//@ pure
+//@ ensures r1 == nil && !compounding && len(eth1AddressWithdrawalPrefix) == 1 ==> r0[0] == eth1AddressWithdrawalPrefix[0] && forall(i, 1, 12, r0[i] == 0)
+//@ ensures r1 == nil && compounding && len(eip7251AddressWithdrawalPrefix) == 1 ==> r0[0] == eip7251AddressWithdrawalPrefix[0] && forall(i, 1, 12, r0[i] == 0)
+//@ ensures r1 == nil ==> res(1, hex.DecodeString(strings.TrimPrefix(addr, "0x"))) == nil && forall(i, 0, 20, i < len(res(0, hex.DecodeString(strings.TrimPrefix(addr, "0x")))) ==> r0[12+i] == res(0, hex.DecodeString(strings.TrimPrefix(addr, "0x")))[i])
+//@ ensures r1 == nil ==> res(1, eth2util.ChecksumAddress(addr)) == nil
+
+//@ func getDepositDomain
+//@ props C12
+//@ callreq forkData.HashTreeRoot: forkData.CurrentVersion == forkVersion && forkData.GenesisValidatorsRoot == eth2p0.Root{}
+//@ ghost forkRoot eth2p0.Root
+//@ ghostafter forkData.HashTreeRoot: forkRoot = root
+//@ ensures r1 == nil ==> ncalls(forkData.HashTreeRoot) == 1
+//@ ensures r1 == nil ==> forall(i, 0, 4, r0[i] == depositDomainType[i])
+//@ ensures r1 == nil ==> forall(i, 0, 28, r0[4+i] == forkRoot[i])
+
+// The signing root is the root of SigningData{message root, deposit domain of the network's fork version}.
+//@ func GetMessageSigningRoot
+//@ props C12
+//@ callreq getDepositDomain: res(1, eth2util.NetworkToForkVersionBytes(network)) == nil && forall(i, 0, 4, i < len(res(0, eth2util.NetworkToForkVersionBytes(network))) ==> a1[i] == res(0, eth2util.NetworkToForkVersionBytes(network))[i])
+//@ ensures r1 == nil ==> ncalls(getDepositDomain) == 1
+//@ canary r1 != nil
